@@ -638,6 +638,39 @@ class NB:
         self.op(code, [x], [o], table, fields, version=1)
         return o
 
+    def lstm(self, x):
+        """UNIDIRECTIONAL_SEQUENCE_LSTM (8-bit activations and weights, 16-bit cell state) in the form the integer kernel defines and the converter emits: 24 operands
+        (no CIFG, peephole, projection or normalisation), two variable state tensors, five intermediates.  The compiler unrolls it over time (and over the batch unless
+        time-major) into fully connected operators, 16-bit element-wise operators with the hardware's tanh/sigmoid activations, and writes into the state tensors"""
+        d, st = self.draw, self.st
+        X = self.info(x)
+        a, b_, f = X["shape"]
+        time_major = d(st.booleans())
+        n_batch = b_ if time_major else a
+        n_cell = d(st.one_of(st.integers(1, 8), st.integers(1, 24), st.sampled_from([4, 8, 16, 17, 32])))
+        seed = d(st.integers(0, 1 << 30))
+        ws = d(st.sampled_from([0.01, 0.005, 0.02, 0.0078125]))
+        hq = self.quant("int8")
+        ins = [x]
+        for k in range(4):
+            ins.append(self.t("lstm_w_in%d" % k, [n_cell, f], "int8", ws, 0, self.wdata("int8", seed + k)))
+        for k in range(4):
+            ins.append(self.t("lstm_w_re%d" % k, [n_cell, n_cell], "int8", ws, 0, self.wdata("int8", seed + 4 + k)))
+        ins += [-1, -1, -1]
+        for k in range(4):
+            ins.append(self.t("lstm_b%d" % k, [n_cell], "int32", float(ws) * float(X["scale"]), 0, dict(seed=seed + 8 + k, lo=-2000, hi=2000)))
+        ins += [-1, -1]
+        ins.append(self.t("lstm_out_state", [n_batch, n_cell], "int8", hq[0], hq[1], is_variable=True))
+        cell_scale = 2.0 ** -d(st.sampled_from([11, 12, 10, 13, 15]))
+        ins.append(self.t("lstm_cell_state", [n_batch, n_cell], "int16", cell_scale, 0, is_variable=True))
+        ins += [-1, -1, -1, -1]
+        inter = [self.t("lstm_im%d" % k, [], "int16", 2.0 ** -12, 0) for k in range(4)]
+        inter.append(self.t("lstm_hidden", [], "int8", hq[0], hq[1]))
+        o = self.out("lstm", [a, b_, n_cell], "int8", hq)
+        fields = dict(FusedActivationFunction=4, CellClip=d(st.sampled_from([0.0, 0.0, 10.0, 1.0, 0.5])), ProjClip=0.0, TimeMajor=time_major, AsymmetricQuantizeInputs=False)
+        self.op("UNIDIRECTIONAL_SEQUENCE_LSTM", ins, [o], "UnidirectionalSequenceLSTMOptions", fields, version=3, intermediates=inter)
+        return o
+
     def tile(self, x):
         Xn = self.info(x)
         mult = self.const_i32("mult", [1] * (len(Xn["shape"]) - 1) + [2])
@@ -721,6 +754,30 @@ def network(profile="exact", max_ops=6, dtypes=("int8", "int8", "int8", "uint8",
         if profile == "head":
             # classifier heads: a 1x1 feature map (what is left after global pooling) under 1x1 convolutions (rewritten to fully connected operators) and FC layers
             in_shape = [1, 1, 1, draw(st.one_of(st.integers(1, 40), st.sampled_from([16, 17, 32, 64, 128])))]
+        if profile == "rnn":
+            # recurrent networks: UNIDIRECTIONAL_SEQUENCE_LSTM over [batch, time, feature] (or time-major) sequences - unrolled by the compiler into fully connected
+            # operators, 16-bit element-wise arithmetic with the hardware's tanh/sigmoid activations, reads and writes of the variable state tensors at batch offsets -
+            # optionally stacked, behind a producer on the NPU and in front of ordinary consumers
+            qx = nb.quant("int8")
+            x = nb.t("input", [draw(st.integers(1, 3)), draw(st.integers(1, 5)), draw(st.one_of(st.integers(1, 8), st.integers(1, 24), st.sampled_from([16, 17, 32])))], "int8", qx[0], qx[1])
+            nb.inputs.append(x)
+            cur = x
+            if draw(st.integers(0, 2)) == 0:
+                cur = nb.unary(cur, draw(st.sampled_from(["RELU", "RELU6"])), same_q=True)
+            cur = nb.lstm(cur)
+            outs = []
+            tail = draw(st.sampled_from(["none", "none", "stack", "relu", "image", "tap"]))
+            if tail == "stack":
+                cur = nb.lstm(cur)
+            elif tail == "relu":
+                cur = nb.unary(cur, "RELU", same_q=True)
+            elif tail in ("image", "tap"):
+                if tail == "tap":
+                    outs.append(cur)
+                Xc = nb.info(cur)
+                cur = nb.reshape(cur, [1] + Xc["shape"])
+                cur = nb.conv(cur) if draw(st.booleans()) else nb.pool(cur, "maxpool")
+            return dict(tensors=nb.tensors, ops=nb.ops, inputs=nb.inputs, outputs=[cur] + outs)
         x = nb.t("input", in_shape, dt, q[0], q[1])
         nb.inputs.append(x)
         cur = x
